@@ -220,23 +220,37 @@ class Ref:
 ATT = ['o', 'xo', 'xxo', 'xxx', 'x-', 'xx-', '-', 'r', 'xr', 'xxr', '']
 ATT_W = [6, 3, 2, 4, 1, 1, 2, 1, 1, 1, 1]
 
-def gen_competition(rng, athlib, nath=None, nheights=None, jo_heights=3, att_choice=None, jo_letters=('oxr', [4, 5, 1])):
+def gen_competition(rng, athlib, nath=None, nheights=None, jo_heights=3, att_choice=None, jo_letters=('oxr', [4, 5, 1]),
+                    on_call=None, probes=False):
     """drive a real competition + referee through a structured complete competition; returns
-    (ops, comp, ref). Within a height athletes take trials round-robin (attempt 1 of everybody, ...)."""
+    (ops, comp, ref). Within a height athletes take trials round-robin (attempt 1 of everybody, ...).
+    on_call(c, ref, ops_so_far, op) -> outcome may replace the plain application (it must record accepted
+    calls in the referee itself); probes=True adds calls the rules forbid (athletes who are out, extra attempts)."""
     nath = nath or rng.randint(2, 4)
     nheights = nheights or rng.randint(1, 4)
     c = new_comp(athlib); r = Ref(); ops = []
     def do(op):
+        if on_call is not None:
+            out = on_call(c, r, list(ops), op)
+            ops.append(op)
+            return out
         out = apply_op(athlib, c, op)
         ops.append(op)
         if out == 'ok': r.record(op)
         return out
+    def probe():
+        if not probes: return
+        for b in range(1, nath + 1):
+            if rng.random() < 0.5:
+                do(('trial', b, rng.choice('oxpr')))
     for b in range(1, nath + 1): do(('add', b))
     h = 100
+    seen_heights = []
     for hi in range(nheights):
         if c.state not in ('started', 'scheduled', 'won'): break
         h += rng.choice([3, 5])
         if do(('bar', h)) != 'ok': break
+        seen_heights.append(h)
         plan = {}
         for b in range(1, nath + 1):
             plan[b] = att_choice(rng) if att_choice else rng.choices(ATT, ATT_W)[0]
@@ -246,17 +260,24 @@ def gen_competition(rng, athlib, nath=None, nheights=None, jo_heights=3, att_cho
                 if len(plan[b]) > a and c.state in ('started', 'won'):
                     t = plan[b][a]
                     do(('trial', b, {'o': 'o', 'x': 'x', '-': 'p', 'r': 'r'}[t]))
-    # jump-off continuation
+        probe()
+    # jump-off continuation: the bar is raised, repeated, or lowered (also to exactly an earlier height)
     k = 0
     while c.state == 'jumpoff' and k < jo_heights:
         k += 1
-        h2 = h + rng.choice([-4, -2, 0, 0, 2, 3])
+        pbest = [r.best(b) for b in r.bibs if b in (r.P or ()) and r.best(b)]
+        if pbest and rng.random() < 0.35:
+            h2 = rng.choice(pbest)                       # exactly a participant's best
+        else:
+            h2 = rng.choice(seen_heights + [h - 4, h - 2, h, h, h + 2, h + 3])
         if h2 <= 0: h2 = h
         h = h2
         do(('bar', h))
+        seen_heights.append(h)
         parts = [b for b in r.bibs if b in (r.P or ())]
         rng.shuffle(parts)
         for b in parts:
             if c.state != 'jumpoff': break
             do(('trial', b, rng.choices(jo_letters[0], jo_letters[1])[0]))
+        probe()
     return ops, c, r
